@@ -101,6 +101,26 @@ func main() {
 		}
 	}
 	s.Exhaustive("all 256 MHDR bytes x 7 lengths")
+	// guided join / rejoin frames: exact accepted lengths, RFU bits zero, random contents (all field bytes non-trivial)
+	for rep := 0; rep < 12; rep++ {
+		for _, g := range []struct {
+			mhdr byte
+			n    int
+			ty   int
+		}{{0x00, 23, -1}, {0x01, 23, -1}, {0xc0, 19, 0}, {0xc0, 19, 2}, {0xc1, 24, 1}, {0xc0, 24, 1}, {0x20, 17, -1}, {0x20, 33, -1}, {0xe0, 9, -1}, {0xc0, 24, 0}, {0xc0, 19, 1}, {0xc0, 19, 3}} {
+			b := r.Bytes(g.n)
+			b[0] = g.mhdr
+			if g.ty >= 0 {
+				b[1] = byte(g.ty)
+			}
+			for j := 2; j < len(b); j++ { // avoid accidental zero bytes hiding a dropped field
+				if b[j] == 0 {
+					b[j] = 0xa5
+				}
+			}
+			add(s, b, "guided-join")
+		}
+	}
 	for i := 0; i < n; i++ {
 		l := r.Intn(257)
 		if i%3 == 0 {
